@@ -18,6 +18,9 @@ ZCl == {"256", "257", "2^64", "r-1", "r-2", "h", "rnd1", "rnd2", "300", "65536"}
 Cases == {[Blank EXCEPT !.kind = "divide", !.f = fc[1], !.j = fc[2], !.k = ch] : fc \in FCl, ch \in Chunks}
          \cup {[Blank EXCEPT !.kind = "bary", !.z = z, !.f = fc[1], !.j = fc[2], !.full = (z \in {"256", "r-1", "rnd1"} /\ fc[1] = "random" /\ fc[2] = 1)] :
                  z \in ZCl, fc \in {<<"random", 1>>, <<"x255", 0>>, <<"unit", 255>>, <<"max", 0>>}}
+         \* histories: a call OUTSIDE the property's quantification (z inside the domain: index j; the result is recorded, not judged), then judged calls
+         \cup {[Blank EXCEPT !.kind = "baryhist", !.j = j, !.z = z, !.f = "random", !.full = (j = 5)] :
+                 j \in {0, 5, 128, 255} \cup (IF Tier = "quick" THEN {} ELSE {1, 2, 64, 127, 129, 200, 254}), z \in {"256", "257", "r-1", "rnd1"}}
          \cup {[Blank EXCEPT !.kind = "tables"]}
 VARIABLE done
 Init == done = FALSE
